@@ -314,7 +314,9 @@ func (e *executor) executeField(objectValue any, fields []*ast.Field, fieldDef *
 	field := fields[0]
 	argumentValues, coercionErr := coerceArgumentValues(field, fieldDef.Arguments, field.Arguments, e.VariableValues)
 	if coercionErr != nil {
-		return future.Err[any](coercionErr)
+		// A field whose arguments cannot be coerced fails like any other field: the error carries
+		// the field's response path and location, so that clients can tell which null it explains.
+		return future.Err[any](newErrorWithPath(field, path, "%s", coercionErr.Message))
 	}
 	if err := e.Context.Err(); err != nil {
 		return future.Err[any](newFieldResolveError(fields, err, path))
